@@ -1,4 +1,5 @@
-\* q_steps: see checks/ringlookup_common.py (UNIVERSES) for what this universe is for
+\* q_steps: AddInstance and RemoveInstance steps in every relative token position (ids not ordered by token)
+\* (generated from UNIVERSES in checks/ringlookup_common.py: python3 checks/ringlookup_common.py --write-cfgs)
 CONSTANTS
   NK = 4
   Gaps = {1}
@@ -11,10 +12,13 @@ CONSTANTS
   RFMax = 2
   Canon = 1
   WithRemove = TRUE
+  Excl = {}
   EmitOn = TRUE
+  EmitSets = FALSE
+  XMax = 0
 INIT Init
 NEXT Next
 VIEW View
-INVARIANTS TypeOK SizeOK ZoneOK ClockwiseFirst SlackExact WalkDefsAgree QuorumIntersection Emit
+INVARIANTS TypeOK SizeOK ZoneOK ClockwiseFirst SlackExact WalkDefsAgree QuorumIntersection ExpandedOK Emit
 PROPERTIES MinimalDisruption
 CHECK_DEADLOCK FALSE
